@@ -46,7 +46,8 @@ class RsaKeyStub:
     def encrypt(self, msg, pad):
         ctx = Ctx.cur
         k = len(ctx.env.setdefault('rsa_out', []))
-        out = SBytes([z3.BitVec('rsa%d[%d]' % (k, i), 8) for i in range(16)])
+        n = ctx.env.get('rsa_out_len', 16)
+        out = SBytes([z3.BitVec('rsa%d[%d]' % (k, i), 8) for i in range(n)])
         ctx.env['rsa_out'].append((out, self, pad, msg))
         return out
 
